@@ -10,7 +10,7 @@ import (
 // dispatcherRule: every batch line in range is started exactly once and every
 // started run's result is collected (shared by C03 and C11).
 func dispatcherRule(p *Prog, r *Report, rule string) {
-	r.Rule(rule, "dispatcher: the goroutine launch of a batch line cannot be skipped (its slot guard is implied by the exit condition of the preceding wait loop and by the counter invariant); the active-run counter is incremented only next to the launch and decremented only on a received result, which is also handed to the error summary; a drain loop collects the remaining results", 5)
+	r.Rule(rule, "dispatcher: the goroutine launch of a batch line cannot be skipped (its slot guard is implied by the exit condition of the preceding wait loop and by the counter invariant); the active-run counter is incremented only next to the launch and decremented only on a received result, which is also handed to the error summary; a drain loop collects the remaining results; every channel handed to a run is made unconditionally", 7)
 	key := "hermes2go.doConcurrentBatchRun"
 	fi := p.Funcs[key]
 	x := walked(p, key)
@@ -102,6 +102,89 @@ func dispatcherRule(p *Prog, r *Report, rule string) {
 	if resObj == nil {
 		r.Ob("result-channel", p.Pos(launch.Pos), false, "the launch passes no result channel")
 		return
+	}
+	// every channel handed to a run exists on every path: Run takes a nil log channel for "single run,
+	// not part of a batch" and then ends the whole process on a run error (log.Fatal) instead of reporting
+	// the error for its own line — a channel that is only made under a condition turns one failing line
+	// into the loss of all concurrently running lines
+	for _, a := range launch.Call.Args {
+		id, ok := a.(*ast.Ident)
+		if !ok {
+			continue
+		}
+		if _, isCh := info.TypeOf(a).Underlying().(*types.Chan); !isCh {
+			continue
+		}
+		obj := info.Uses[id]
+		if _, isParam := paramIndex(fi.Decl, obj); isParam {
+			continue
+		}
+		nDef, okDef := 0, true
+		why := ""
+		var visit func(list []ast.Stmt, top bool)
+		visit = func(list []ast.Stmt, top bool) {
+			for _, s := range list {
+				switch t := s.(type) {
+				case *ast.AssignStmt:
+					for i, l := range t.Lhs {
+						lid, ok := l.(*ast.Ident)
+						if !ok || (info.Defs[lid] != obj && info.Uses[lid] != obj) {
+							continue
+						}
+						nDef++
+						isMake := false
+						if i < len(t.Rhs) {
+							if call, ok := t.Rhs[i].(*ast.CallExpr); ok {
+								if fid, ok := call.Fun.(*ast.Ident); ok && fid.Name == "make" {
+									isMake = true
+								}
+							}
+						}
+						if !isMake {
+							okDef, why = false, "assigned something that is not make(chan …)"
+						}
+						if !top {
+							okDef, why = false, "made only under a condition or inside a loop"
+						}
+					}
+				case *ast.DeclStmt:
+					if gd, ok := t.Decl.(*ast.GenDecl); ok {
+						for _, sp := range gd.Specs {
+							if vs, ok := sp.(*ast.ValueSpec); ok {
+								for _, n := range vs.Names {
+									if info.Defs[n] == obj && len(vs.Values) == 0 {
+										okDef, why = false, "declared without a value (nil channel)"
+									}
+								}
+							}
+						}
+					}
+				}
+				ast.Inspect(s, func(n ast.Node) bool {
+					if n == s {
+						return true
+					}
+					if b, ok := n.(*ast.BlockStmt); ok {
+						visit(b.List, false)
+						return false
+					}
+					if cc, ok := n.(*ast.CaseClause); ok {
+						visit(cc.Body, false)
+						return false
+					}
+					if cc, ok := n.(*ast.CommClause); ok {
+						visit(cc.Body, false)
+						return false
+					}
+					return true
+				})
+			}
+		}
+		visit(fi.Decl.Body.List, true)
+		if nDef == 0 {
+			okDef, why = false, "never assigned in the dispatcher"
+		}
+		r.Ob("channel-made:"+id.Name, p.Pos(launch.Pos), okDef, fmt.Sprintf("channel %s handed to every run is made unconditionally in the dispatcher (%d definition(s)) %s", id.Name, nDef, why))
 	}
 	// all writes of the counter
 	for _, e := range x.Events {
@@ -208,4 +291,21 @@ func condAtoms(c *Cond, f func(a *Atom)) {
 	for _, s := range c.Sub {
 		condAtoms(s, f)
 	}
+}
+
+// paramIndex reports whether obj is a parameter of fd.
+func paramIndex(fd *ast.FuncDecl, obj types.Object) (int, bool) {
+	if obj == nil || fd.Type.Params == nil {
+		return 0, false
+	}
+	k := 0
+	for _, f := range fd.Type.Params.List {
+		for _, n := range f.Names {
+			if n.Pos() == obj.Pos() {
+				return k, true
+			}
+			k++
+		}
+	}
+	return 0, false
 }
